@@ -149,25 +149,32 @@ def run_module(m, args):
         return "e2e-export-fails", f"{names[-1]}: {str(chain[-1])[:300]}"
     mp = prog.model_proto
     feeds = {i.name: a.numpy() for i, a in zip(mp.graph.input, args)}
+    from vf.props import c08_helper
+    H = c08_helper.helper()
+    mb = mp.SerializeToString()
     try:
-        outs, engine = K.run_model(mp, feeds)
-    except K.RunFail as e:
-        if e.no_kernel():
-            return "skip:no-runtime-kernel", str(e)[:200]
-        return "e2e-run-fails", str(e)[:300]
+        r = H.call(("run", mb, feeds))
+    except c08_helper.Crashed as e:
+        return "e2e-run-fails", f"NATIVE CRASH while running the exported model: {e}"
+    if r[0] != "ok":
+        if r[3]:
+            return "skip:no-runtime-kernel", (r[1] + " | " + r[2])[:200]
+        return "e2e-run-fails", ("ort: " + r[1] + " | ref: " + r[2])[:300]
+    outs, engine = r[1], r[2]
     est, exp = K.expected_outputs(expected)
     d = runeq.compare(list(outs), exp, loose=4.0)
     if d is None:
         return "ok", engine
     if engine == "ort":
         try:
-            routs = runeq.run_ref(mp, feeds)
-            dr = runeq.compare(list(routs), exp, loose=4.0)
+            r = H.call(("ref", mb, feeds))
+        except c08_helper.Crashed:
+            r = ("err", "crash")
+        if r[0] == "ok":
+            dr = runeq.compare(list(r[1]), exp, loose=4.0)
             if dr is None:
                 return "skip:ort-differs-reference-agrees-with-torch", d
             d = dr + " [reference evaluator; ORT: " + d + "]"
-        except Exception:  # noqa: BLE001
-            pass
     return "e2e-" + K.classify_diff(d), d
 
 
